@@ -5,7 +5,7 @@ from qvlib.facts import op_local, op_place
 from qvlib.paths import Flow, agg_sites, explore
 
 CRATES = None
-OPTIONAL_FNS = ("Executor::canonical_tuple",)      # R-C13-1 / R-C13-3 fall back to direct reads of Executor.canonical_tuples
+OPTIONAL_FNS = ("Executor::canonical_tuple", "Worker::notify_result", "Worker::deliver_message", "Worker::update_program")      # R-C13-1 / R-C13-3 fall back to direct reads of Executor.canonical_tuples
 EXEC = "quiver_core::executor::Executor"
 VALUE = "quiver_core::value::Value"
 BINARY = "quiver_core::value::Binary"
